@@ -19,7 +19,7 @@ CHECKS = {
         "exploration",
         "enum",
         "bounded-exhaustive mutation enumeration of received byte strings through the real provider read path, with re-encode/re-decode stability and a conformant-PDU acceptance list",
-        "42k inputs per run: the full grid of 256 type bytes x 11 length values x 3 body shapes; for 19 seed PDUs (built by the reference codec, one per PDU type and sub-item kind) every prefix, every single-byte substitution by 7 values, every length field set to 7 boundary values, every item-type byte replaced by every other value, extensions, all permutations / duplications / omissions of the variable items, control and non-ASCII bytes; 15 PDUs that conform to PS3.8 but that pynetdicom never emits.  Each goes through the real DULServiceProvider._read_pdu_data over an in-memory socket: no exception or hang, exactly one event, a decoded PDU must re-encode and re-decode to itself, conformant PDUs must be accepted (and an A-ASSOCIATE-RQ must take the provider from Sta2 to Sta3).",
+        "42k inputs per run: the full grid of 256 type bytes x 11 length values x 3 body shapes; for 19 seed PDUs (built by the reference codec, one per PDU type and sub-item kind) every prefix, every single-byte substitution by 7 values, every length field set to 7 boundary values, every item-type byte replaced by every other value, extensions, all permutations / duplications / omissions of the variable items, control and non-ASCII bytes; 15 PDUs that conform to PS3.8 but that pynetdicom never emits.  Each goes through the real DULServiceProvider._read_pdu_data over an in-memory socket and, when it decodes, through the real state machine action for its event in the state in which that PDU is expected (conversion to a primitive, hand-over to ACSE/DIMSE, replies): no exception or hang in either step, exactly one event, a decoded PDU must re-encode and re-decode to itself, conformant PDUs must be accepted (and an A-ASSOCIATE-RQ must take the provider from Sta2 to Sta3).",
         "A decoder running more than 5 s on one input counts as a hang; conformance of the unusual list is established by the reference decoder and PS3.8 9.3.",
         "3/C02",
     ),
@@ -67,7 +67,7 @@ CHECKS = {
         "fault_enumeration",
         "sim",
         "enumeration of every byte offset at which a raw peer falls silent (plus dribbling and a never-completing connect) against the real code in virtual time",
-        "For both roles the peer's valid byte stream is delivered up to every byte offset of every phase and then nothing more arrives while the connection stays open; prompt virtual time makes elapsed time meaningful, so the check requires every API call and every provider/association thread to finish within the relevant timeout plus margin and the socket to be closed; a thread blocked without deadline is reported with its call site.",
+        "For both roles the peer's valid byte stream is delivered up to every byte offset of every phase and then nothing more arrives while the connection stays open; in addition a peer that never stops sending P-DATA (whole PDUs, and segments that end inside the next PDU) after leaving a C-ECHO unanswered, after a second A-ASSOCIATE-RQ and after a completed release; prompt virtual time makes elapsed time meaningful, so the check requires every API call and every provider/association thread to finish within the relevant timeout plus margin and the socket to be closed; a thread blocked without deadline is reported with its call site.",
         "Accepted sockets carry no timeout (CPython semantics); default schedule; quick tier every 5th offset plus all offsets within 7 bytes of PDU boundaries, thorough every offset.",
         "3/C08",
     ),
